@@ -29,9 +29,6 @@ import (
 func init() {
 	drivers["mdstore"] = driveMdStore
 	replayers["mdstore"] = replayMdStore
-	// same driver, compared with the Lean model that carries the proposed RemoveScope fix
-	drivers["mdstorefix"] = driveMdStore
-	replayers["mdstorefix"] = replayMdStore
 }
 
 var (
